@@ -130,7 +130,13 @@ func c15Path(rng *rand.Rand, rw c15Rewrite) string {
 
 var c15QParts = []string{"%74oken=enc", "tok%65n=enc2", "debu%67=1", "de+bug=x", "tok=1", "tokens=x", "d=2", "Token=upper", "a=1", "a=2", "b=x%20y", "b=x+y", "token=secret", "token=s2", "debug", "debug=", "c=%26%3D", "empty=", "flag", "k%20ey=v", "z=%C3%BC", "a=3"}
 
+// queries net/url cannot parse completely; none of them names a parameter any rule strips
+var c15OddQueries = []string{"q=100%&page=2", "filter=a;b&x=1", "r=%zz&keep=1", "a=1&b=%&c=3", "x=1;y=2"}
+
 func c15Query(rng *rand.Rand) string {
+	if rng.IntN(8) == 0 {
+		return c15OddQueries[rng.IntN(len(c15OddQueries))]
+	}
 	n := rng.IntN(5)
 	var parts []string
 	for i := 0; i < n; i++ {
@@ -152,14 +158,14 @@ func randCase(rng *rand.Rand, s string) string {
 }
 
 type c15Case struct {
-	Trusted  bool            `json:"peer_is_trusted_proxy"`
-	Rewrite  c15Rewrite      `json:"rule"`
-	Method   string          `json:"method"`
-	Target   string          `json:"request_target"`
-	Headers  []app.Hdr       `json:"client_headers"`
-	BodyLen  int             `json:"body_length"`
-	Expected map[string]any  `json:"expected"`
-	Status   int             `json:"status"`
+	Trusted  bool             `json:"peer_is_trusted_proxy"`
+	Rewrite  c15Rewrite       `json:"rule"`
+	Method   string           `json:"method"`
+	Target   string           `json:"request_target"`
+	Headers  []app.Hdr        `json:"client_headers"`
+	BodyLen  int              `json:"body_length"`
+	Expected map[string]any   `json:"expected"`
+	Status   int              `json:"status"`
 	Upstream *app.UpstreamHit `json:"upstream_received"`
 }
 
@@ -176,12 +182,17 @@ func TestC15(t *testing.T) {
 	type inst struct {
 		trusted bool
 		a       *app.App
+		peer    string // the address heimdall sees the client under
 	}
 	up := app.NewUpstream()
 	defer up.Close()
 	var insts []inst
-	for _, trusted := range []bool{false, true} {
-		a, err := app.New(app.Options{Service: app.SvcProxy, Mutate: func(c *config.Configuration) {
+	for k, trusted := range []bool{false, true, true} {
+		host, peer := "127.0.0.1", "127.0.0.1"
+		if k == 2 {
+			host, peer = "::1", "::1" // a trusted proxy connecting over IPv6
+		}
+		a, err := app.New(app.Options{Service: app.SvcProxy, Host: host, Mutate: func(c *config.Configuration) {
 			hs := map[string]any{}
 			for k, v := range c15PipelineHeaders {
 				hs[k] = v
@@ -190,9 +201,13 @@ func TestC15(t *testing.T) {
 			c.Prototypes.Finalizers = append(c.Prototypes.Finalizers, config.Mechanism{ID: "bodyreader", Type: "header",
 				Config: config.MechanismConfig{"headers": map[string]any{"X-Verif-Body-Read": "{{ if .Request.Body }}non-empty{{ else }}empty{{ end }}"}}})
 			if trusted {
-				c.Serve.Proxy.TrustedProxies = &[]string{"127.0.0.0/8"}
+				c.Serve.Proxy.TrustedProxies = &[]string{"127.0.0.0/8", "::1"}
 			}
 		}})
+		if err != nil && k == 2 {
+			r.Set("ipv6_loopback", "not available: "+err.Error())
+			continue
+		}
 		if err != nil {
 			r.Inconclusive("cannot start proxy: " + err.Error())
 			r.End()
@@ -204,14 +219,17 @@ func TestC15(t *testing.T) {
 				r.End()
 			}
 		}
-		insts = append(insts, inst{trusted, a})
+		insts = append(insts, inst{trusted, a, peer})
 	}
 	rng := r.Stream("c15")
 	n := r.Pick(3000, 100000)
 	methods := []string{"GET", "POST", "PUT", "DELETE", "PATCH", "OPTIONS", "HEAD"}
 	bigBody := strings.Repeat("0123456789abcdef", 65536) // 1 MiB
 	for i := 0; i < n && r.Violations() < 60; i++ {
-		in := insts[rng.IntN(2)]
+		in := insts[rng.IntN(len(insts))]
+		if in.peer != "127.0.0.1" {
+			r.Count("requests_from_an_ipv6_peer", 1)
+		}
 		rw := c15Rewrites[rng.IntN(len(c15Rewrites))]
 		path := c15Path(rng, rw)
 		query := c15Query(rng)
@@ -328,6 +346,14 @@ func TestC15(t *testing.T) {
 		} else {
 			exp, ok := parseQueryOrdered(query)
 			got, ok2 := parseQueryOrdered(gotQuery)
+			if !ok {
+				// not parsable as a whole and free of the parameters to strip: nothing is to be removed, nothing else may change
+				cs.Expected["query"] = query
+				r.Count("unparsable_queries_through_a_stripping_rule", 1)
+				if gotQuery != query {
+					r.Violation("forwarded-query-differs", fmt.Sprintf("forwarded query %q, client sent %q which contains none of the parameters to strip", gotQuery, query), cs)
+				}
+			}
 			if ok && ok2 {
 				for _, d := range rw.DelQ {
 					delete(exp, d)
@@ -376,7 +402,7 @@ func TestC15(t *testing.T) {
 			}
 		}
 		xff, fw := strings.Join(h.Header["X-Forwarded-For"], ","), strings.Join(h.Header["Forwarded"], ",")
-		peer := "127.0.0.1"
+		peer := in.peer
 		switch {
 		case xff == "" && fw == "":
 			r.Violation("peer-address-not-added", "neither X-Forwarded-For nor Forwarded carries the peer address", cs)
@@ -393,7 +419,8 @@ func TestC15(t *testing.T) {
 			}
 		default:
 			parts := strings.Split(fw, ",")
-			if !strings.Contains(parts[len(parts)-1], "for="+peer) {
+			// an IPv6 address is quoted and bracketed in this header (RFC 7239 section 6): for="[::1]"
+			if last := parts[len(parts)-1]; !strings.Contains(last, "for="+peer) && !strings.Contains(last, `for="[`+peer+`]"`) {
 				r.Violation("peer-address-not-added", fmt.Sprintf("Forwarded %q does not end with the peer address", fw), cs)
 			}
 			if in.trusted && fwd["Forwarded"] != "" && !strings.HasPrefix(fw, fwd["Forwarded"]) {
